@@ -104,11 +104,25 @@ func runC19(c *eng.Ctx) {
 		if !ok {
 			return
 		}
-		rt := pegref.FromImpl(ast)
+		var rt any
+		if pmsg := catch(func() { rt = pegref.FromImpl(ast) }); pmsg != "" {
+			// a tree the parser returned that is not well formed (e.g. a binary match without a value): dumping it is what the property is
+			// about, so try that too and report
+			_, dp := dumpSafe(expr, " ", 0)
+			c.Violate(eng.Violation{Kind: "malformed-tree-from-parser", Key: fmt.Sprintf("tree-of=%q", src), Coords: map[string]int{"u": unit}, Expected: "a well-formed syntax tree that can be dumped",
+				Observed: "reading the tree: " + pmsg + "; ExpressionDump: " + dp})
+			return
+		}
 		for ii, ind := range indents {
 			for li, lvl := range levels {
 				var want bytes.Buffer
-				refDump(&want, rt, ind, lvl)
+				if pmsg := catch(func() { refDump(&want, rt, ind, lvl) }); pmsg != "" {
+					// the reference renderer cannot read the tree the parser returned (e.g. a binary match without a value)
+					_, dp := dumpSafe(expr, ind, lvl)
+					c.Violate(eng.Violation{Kind: "malformed-tree-from-parser", Key: fmt.Sprintf("tree-of=%q", src), Coords: map[string]int{"u": unit}, Expected: "a well-formed syntax tree that can be dumped",
+						Observed: "reference renderer: " + pmsg + "; ExpressionDump: " + dp})
+					return
+				}
 				got, p := dumpSafe(expr, ind, lvl)
 				got2, _ := dumpSafe(expr, ind, lvl)
 				c.R.Evaluations += 2
@@ -204,6 +218,18 @@ func runC19(c *eng.Ctx) {
 				}
 			}
 		}
+	}
+	// every tree the parser returns for the token sequences of the language explorer (strings nobody would write included)
+	if c.Want("f", 19) {
+		tokenInputs(c, 19, "t", func(b []byte, co map[string]int) {
+			if !c.Want("u", -co["t"]) {
+				return
+			}
+			if ast, err, pan := parseSafe(b); err == nil && pan == "" && ast != nil {
+				unit = -co["t"]
+				checkSrc(string(b), false)
+			}
+		})
 	}
 	// Selector.String on constructed selectors
 	if c.Mine(0) && c.Want("u", 0) {
